@@ -329,7 +329,9 @@ def realInputs (q : List Queued) : List Queued := q.filter fun qd => qd.ev.coord
 /-- `ChordsV2::drain_inputs` -/
 def drainInputs (s : ChV2) (dq : List Queued) (layer : Nat) : Except Crash (ChV2 × List Queued) :=
   if s.ticksToIgnore > 0 then
-    .ok ({ s with queue := [], active := applyReleases (realInputs s.queue) s.active }, drainExtend dq s.queue)
+    -- fix PENDING-kanv2: the countdown of the scan that started the cool-down does not survive it
+    .ok ({ s with queue := [], active := applyReleases (realInputs s.queue) s.active, ticksUntilChange := 0 },
+         drainExtend dq s.queue)
   else if s.ticksUntilChange > 0 && s.prevActiveLayer == layer && s.prevQueueLen == s.queue.length then
     .ok ({ s with ticksUntilChange := s.ticksUntilChange - 1 }, dq)
   else
